@@ -110,6 +110,10 @@ def _work(item) -> Result:
     oid, smt2, timeout_ms, seed, both = item[:5]
     core = item[5] if len(item) > 5 else None
     t0 = time.time()
+    if both == "quick":
+        # relevance sub-queries: one short E-matching attempt, nothing else
+        st, model, reason = _run_z3(smt2, timeout_ms, seed)
+        return Result(oid, st, "z3", time.time() - t0, model, reason)
     if core is not None:
         st, model, reason = _run_z3(core, min(timeout_ms, 3000), seed)
         if st == "unsat":
@@ -139,5 +143,128 @@ def discharge(items: list[tuple], timeout_ms: int, seed: int, both: bool = False
         return []
     if len(work) <= 2:
         return [_work(w) for w in work]
-    with ProcessPoolExecutor(max_workers=min(workers, len(work))) as pool:
-        return list(pool.map(_work, work, chunksize=max(1, len(work) // (workers * 4))))
+    from concurrent.futures.process import BrokenProcessPool
+
+    try:
+        with ProcessPoolExecutor(max_workers=min(workers, len(work))) as pool:
+            return list(pool.map(_work, work, chunksize=max(1, len(work) // (workers * 4))))
+    except BrokenProcessPool:
+        # a solver process died (z3 crash / out of memory): isolate every query in its own
+        # process so that only the offending one is lost - it becomes `unknown`, never a verdict
+        from concurrent.futures import ThreadPoolExecutor
+
+        def isolated(w):
+            try:
+                with ProcessPoolExecutor(max_workers=1) as p1:
+                    return p1.submit(_work, w).result()
+            except BrokenProcessPool:
+                return Result(w[0], "unknown", "z3", 0.0, reason="solver process terminated abruptly")
+
+        with ThreadPoolExecutor(max_workers=min(workers, len(work))) as tp:
+            return list(tp.map(isolated, work))
+
+
+def _work_subsets(item) -> Result:
+    """Relevance search inside a worker: the full obligation arrives once as SMT-LIB2;
+    the worker tries  quantifier-free hypotheses + the given subsets of the quantified
+    ones + negated goal.  A proof from a subset of the hypotheses is a proof."""
+    oid, smt2, subsets, timeout_ms, seed = item
+    t0 = time.time()
+    try:
+        av = z3.parse_smt2_string(smt2)
+    except z3.Z3Exception as e:
+        return Result(oid, "unknown", "z3", 0.0, reason=f"z3 parse error: {e}")
+    asserts = list(av)
+    if not asserts:
+        return Result(oid, "unknown", "z3", 0.0, reason="empty query")
+    neg_goal, hyps = asserts[-1], asserts[:-1]
+    core = [h for h in hyps if not has_forall(h)]
+    fas = [h for h in hyps if has_forall(h)]
+    for sub in subsets:
+        if any(k >= len(fas) for k in sub):
+            continue
+        sv = z3.Solver()
+        sv.set("timeout", timeout_ms)
+        sv.set("random_seed", seed)
+        sv.set("smt.mbqi", False)
+        for h in core:
+            sv.add(h)
+        for k in sub:
+            sv.add(fas[k])
+        sv.add(neg_goal)
+        if sv.check() == z3.unsat:
+            return Result(oid, "unsat", "z3", time.time() - t0, "",
+                          f"proved from the quantifier-free hypotheses plus {len(sub)} quantified hypothes{'is' if len(sub) == 1 else 'es'}")
+    return Result(oid, "unknown", "z3", time.time() - t0, reason="no small hypothesis subset suffices")
+
+
+def discharge_subsets(items: list[tuple], timeout_ms: int, seed: int, workers: int = 16, wall_s: float = 120.0) -> list[Result]:
+    """items: (oid, smt2 of the full obligation, list of index tuples into its quantified hypotheses).
+    z3 does not always honour its own timeout on these queries (seconds become minutes), so
+    the pass as a whole has a wall-clock budget: when it is used up the worker processes are
+    terminated and what did not finish counts as `unknown`."""
+    import multiprocessing as mp
+
+    work = []
+    for oid, smt2, subsets in items:
+        chunk = max(1, min(12, len(subsets) // 8 or 1))
+        for i in range(0, len(subsets), chunk):
+            work.append((oid, smt2, subsets[i : i + chunk], timeout_ms, seed))
+    if not work:
+        return []
+    out: list[Result] = []
+    deadline = time.time() + wall_s
+    pool = mp.get_context("fork").Pool(processes=min(workers, len(work)))
+    try:
+        it = pool.imap_unordered(_work_subsets, work)
+        for _ in range(len(work)):
+            left = deadline - time.time()
+            if left <= 0:
+                break
+            try:
+                out.append(it.next(timeout=left))
+            except mp.TimeoutError:
+                break
+            except Exception as e:  # noqa: BLE001  (a worker died: lose that item only)
+                out.append(Result("?", "unknown", "z3", 0.0, reason=f"worker failed: {e}"))
+    finally:
+        pool.terminate()
+        pool.join()
+    return out
+
+
+def _work_quick(item) -> Result:
+    oid, smt2, timeout_ms, seed = item
+    t0 = time.time()
+    st, model, reason = _run_z3(smt2, timeout_ms, seed)
+    return Result(oid, st, "z3", time.time() - t0, model, reason)
+
+
+def discharge_quick(items: list[tuple], timeout_ms: int, seed: int, workers: int = 16, wall_s: float = 60.0) -> list[Result]:
+    """One short E-matching attempt per query, the whole batch under a wall-clock budget
+    (worker processes are terminated when it is used up; unfinished queries are simply
+    missing from the result, i.e. undecided)."""
+    import multiprocessing as mp
+
+    work = [(it[0], it[1], timeout_ms, seed) for it in items]
+    if not work:
+        return []
+    out: list[Result] = []
+    deadline = time.time() + wall_s
+    pool = mp.get_context("fork").Pool(processes=min(workers, len(work)))
+    try:
+        it = pool.imap_unordered(_work_quick, work)
+        for _ in range(len(work)):
+            left = deadline - time.time()
+            if left <= 0:
+                break
+            try:
+                out.append(it.next(timeout=left))
+            except mp.TimeoutError:
+                break
+            except Exception:  # noqa: BLE001
+                continue
+    finally:
+        pool.terminate()
+        pool.join()
+    return out
